@@ -66,8 +66,8 @@ pub fn history_formula_with(literals: bool) -> BoxedStrategy<String> {
         1 => rg().prop_map(|a| format!("=COUNTA({a})")),
         1 => (1..4i32, 1..4i32).prop_map(move |(a, b)| if literals { format!("=SEQUENCE({a},{b})") } else { format!("=MAX({a},{b})") }),
         1 => rg().prop_map(move |a| if literals { format!("={a}*2") } else { format!("=SUM({a})*2") }),
-        1 => Just("=nm1".to_string()),
-        1 => Just("=nm2+1".to_string()),
+        1 => Just("=alpha".to_string()),
+        1 => Just("=bravo+1".to_string()),
         1 => if literals { Just("={1,2;3,4}".to_string()) } else { Just("=2^3".to_string()) },
         1 => r().prop_map(|a| format!("=-{a}%")),
         1 => (r(), r(), r()).prop_map(|(a, b, c)| format!("={a}-({b}-{c})")),
